@@ -304,6 +304,13 @@ func (c *collector) report(t interface {
 	Fatalf(string, ...interface{})
 	Logf(string, ...interface{})
 }, caseJSON []byte, v verdict, signature string, err error) {
+	if err != nil && strings.HasPrefix(err.Error(), "harness:") {
+		// trouble of the rig itself (no free port, cannot bind an exporter address, ...): the case is neither
+		// evidence nor a violation; tools/check.py turns a run with such cases into "inconclusive" (exit 2)
+		c.addExtra("harness_errors", 1)
+		t.Logf("HARNESS-ERROR property=%s %v", c.Property, err)
+		return
+	}
 	c.record(caseJSON, v)
 	if err == nil {
 		return
